@@ -283,8 +283,14 @@ def InlineBidirBuf(obj:Logic):
 def InlineBuf(obj:Logic):
     return "assign {} = {};\n".format(getParentWireName(obj, obj.r), getParentWireName(obj, obj.a))
 
+def getBitSelect(obj:Logic, w:Wire, bit):
+    # a bit-select is only legal on vectors, scalars are referred by their name
+    if (w.getWidth() == 1):
+        return getParentWireName(obj, w)
+    return "{}[{}]".format(getParentWireName(obj, w), bit)
+
 def InlineSignExtend(obj:Logic):
-    return "assign {} = {{ {{ {} {{ {}[{}] }} }}, {} }};\n".format(getParentWireName(obj, obj.r), obj.r.getWidth() - obj.a.getWidth(),  getParentWireName(obj, obj.a), obj.a.getWidth()-1, getParentWireName(obj, obj.a))
+    return "assign {} = {{ {{ {} {{ {} }} }}, {} }};\n".format(getParentWireName(obj, obj.r), obj.r.getWidth() - obj.a.getWidth(),  getBitSelect(obj, obj.a, obj.a.getWidth()-1), getParentWireName(obj, obj.a))
 
 def InlineZeroExtend(obj:Logic):
     return "assign {} = {};\n".format(getParentWireName(obj, obj.r), getParentWireName(obj, obj.a))
@@ -329,10 +335,13 @@ def InlineEqualConstant(obj:Logic):
     return "assign {} = ({} == {})? 1 : 0;\n".format(getParentWireName(obj, obj.r), getParentWireName(obj, obj.a), obj.v )
 
 def InlineRange(obj:Logic):
+    if (obj.a.getWidth() == 1):
+        # a part-select is only legal on vectors
+        return "assign {} = {};\n".format(getParentWireName(obj, obj.r), getParentWireName(obj, obj.a))
     return "assign {} = {}[{}:{}];\n".format(getParentWireName(obj, obj.r), getParentWireName(obj, obj.a) , obj.high, obj.low)
 
 def InlineBit(obj:Logic):
-    return "assign {} = {}[{}];\n".format(getParentWireName(obj, obj.r), getParentWireName(obj, obj.a) , obj.bit)
+    return "assign {} = {};\n".format(getParentWireName(obj, obj.r), getBitSelect(obj, obj.a, obj.bit))
 
 def InlineBitsLSBF(obj:Logic):
     str = ""
